@@ -454,7 +454,7 @@ where
                     let mut ids = HashMap::new();
                     for (inst, rr) in [(1, &recs), (2, &recs2)] {
                         for (ci, (ds, o, pan)) in digests(rr, &mut ids).into_iter().enumerate() {
-                            an.out.push(json!({"ev": "stream", "inst": inst, "call": ci + 1, "draws": ds, "res": o, "pan": pan}));
+                            an.out.push(json!({"ev": "stream", "inst": inst, "call": ci + 1, "draws": ds, "res": o, "pan": pan, "tag": "C07"}));
                         }
                     }
                     // RRT* versus RRT on the same seed / problem / budget (C17)
